@@ -337,6 +337,37 @@ class Gen:
             probe = probe[0] if isinstance(probe[0], list) else probe
         return "I %s ; " % inst + " ; ".join(ops + probe)
 
+    def arena_history(self):
+        """the caller passes the SAME buffer address again with a different declared size (arena: 'A' = all 400 000 bytes declared,
+        'a' = 1 KB declared), with and without TJPARAM_NOREALLOC; YUV / 8-bit calls after 12/16-bit, lossless and transform calls"""
+        r = self.r
+        k = r.below(3)
+        if k < 2:
+            inst = r.choice(["c", "t"])
+            ops = ["set %d %d" % (P_QUALITY, r.range(60, 98)), "set %d %d" % (P_SUBSAMP, r.range(0, 2)), "set %d %d" % (P_NOREALLOC, 1 if k == 0 else r.range(0, 1))]
+            big = "c 8 %d %d %d 0 A" % (r.choice([64, 128, 128]), r.choice([48, 96]), r.range(0, 50))
+            ops += [big] * r.range(1, 2)
+            # with reallocation allowed the documentation says *jpegSize is ignored for a reused buffer: the declared size binds only with NOREALLOC
+            ops.append("set %d 1" % P_NOREALLOC)
+            probe = r.choice(["c 8 128 96 %d 0 a" % r.range(0, 50), "c 8 128 96 %d 0 a" % r.range(0, 50), "cy 64 48 %d a" % r.range(0, 50)])
+            if probe.startswith("cy"):
+                ops += ["set %d 0" % P_LOSSLESS, "set %d 1" % P_CS]
+            return "I %s ; " % inst + " ; ".join(ops + [probe])
+        # precision left behind by 12/16-bit, lossless or transform calls, then the 8-bit-only YUV entry points
+        inst = r.choice(["c", "t"])
+        ops = ["set %d %d" % (P_QUALITY, r.range(30, 98)), "set %d %d" % (P_SUBSAMP, r.range(0, 2))]
+        hist = [["c 12 %d %d %d 0 n" % (r.choice([16, 40]), r.choice([16, 40]), r.range(0, 50))],
+                ["set %d 1" % P_LOSSLESS, "set %d %d" % (P_PREC, r.choice([13, 16])), "c 16 16 16 %d 0 n" % r.range(0, 50), "set %d 0" % P_LOSSLESS],
+                ["set %d 1" % P_LOSSLESS, "set %d %d" % (P_PREC, r.choice([9, 12])), "c 12 16 16 %d 0 n" % r.range(0, 50), "set %d 0" % P_LOSSLESS]]
+        if inst == "t":
+            hist.append(["t %d 0 0 n" % r.choice([12, 14])])
+        ops += r.choice(hist)
+        ss = r.range(0, 2)
+        ops += ["set %d 0" % P_LOSSLESS, "set %d %d" % (P_SUBSAMP, ss), "set %d 1" % P_CS]
+        probe = r.choice(["cy %d %d %d n" % (r.choice([16, 40, 64]), r.choice([16, 48]), r.range(0, 50)),
+                          "ey %d %d %d %d" % (r.choice([16, 40, 64]), r.choice([16, 48]), r.range(0, 50), r.choice([0, 1, 2, 7]))])
+        return "I %s ; " % inst + " ; ".join(ops + [probe])
+
     def raw_marker_history(self):
         r = self.r
         ops = ["d %d 1 0 1 0" % r.choice([22, 28, 28, 29]) for _ in range(r.range(1, 2))]
@@ -398,6 +429,8 @@ def finding_signature(hist, res):
     crash = res["crash"] or ""
     ops = [o.strip() for o in hist.split(";")]
     probe = ops[-1].split()
+    if any(o.get("st", "").startswith("OVERRUN") for o in res.get("ops", []) + ([res["fresh"]] if res.get("fresh") else [])):
+        return "buffer-overrun:declared-size-ignored-for-reused-address"
     if probe and probe[0] == "uy" and res.get("ops") and "BADHUFF" in res["ops"][-1].get("st", ""):
         return "F13:stale-huffman-slot:tj3DecodeYUV8-after-failed-header"
     for oi, o in enumerate(res.get("ops", [])):
@@ -514,6 +547,8 @@ def run(ctx):
         hists.append((g.raw_marker_history(), "raw"))
     for _ in range(ctx.n(60, 800)):
         hists.append((g.legacy_fail_history(), "legacy-fail"))
+    for _ in range(ctx.n(60, 800)):
+        hists.append((g.arena_history(), "arena-precision"))
     for _ in range(ctx.n(300, 3000)):
         hists.append((g.raw_history(), "raw"))
     return run_hists(ctx, hists, exes, drv, flavours)
@@ -590,6 +625,11 @@ def run_hists(ctx, hists, exes, drv, flavours):
                                    "bytes: the next operations see less of TJPARAM_MAXMEMORY than a fresh instance (%s build)" % (oi + 1, v[0], v[2], fl))
                             break
             if not bad and res["kind"] == "R":
+                for oi, o in enumerate(res["ops"] + ([res["fresh"]] if res.get("fresh") else [])):
+                    if o.get("st", "").startswith("OVERRUN"):
+                        bad = "call %d wrote %s bytes beyond the declared size of the caller's JPEG buffer (%s build)" % (oi + 1, o["st"][7:], fl)
+                        break
+            if not bad and res["kind"] == "R":
                 for oi, o in enumerate(res["ops"]):
                     parts_ = o.get("S", "").split()
                     kk = [p for p in parts_ if p.startswith("k:")]
@@ -631,6 +671,11 @@ def run_hists(ctx, hists, exes, drv, flavours):
                        "virtual-array operation (progressive decode / optimised or progressive compress / transform / decompress to YUV of a "
                        "256x256 image) before the same operation as probe; plus reused libjpeg objects with jpeg_abort and longjmp error exits; "
                        "distinct = distinct (stream, last outcome stages, probe output hash)")
+    for d_ in (core.evidence_dir(), os.path.join(core.BUILD, "replay")):
+        try:
+            os.makedirs(d_, exist_ok=True)
+        except OSError:
+            pass
     ctx.assume += ["the fresh instance receives the parameter block of the used instance by field copy (every tj3Get-visible parameter, "
                    "scaling factor, cropping region, ICC profile to embed)",
                    "probe streams are self-contained (prefixes / in-place corruptions of interchange JPEGs); abbreviated streams only occur in the history",
@@ -689,7 +734,7 @@ def to_model_call(idx, toks, res, pre, post, flags):
     a = {"callid": idx + 1, "warn": warn, "fail": 0}
     E = stage_parts(st)
     T = int(st[1:]) if re.match(r"T\d+$", st) else None
-    if st == "SKIP" or st == "?" or st == "T?":
+    if st == "SKIP" or st == "?" or st == "T?" or st.startswith("OVERRUN"):
         raise Unsupported(op + ":" + st)
     if st == "W" and rc != 0 and pq["stopOnWarning"]:
         raise Unsupported("stop-on-warning abort")
@@ -878,7 +923,9 @@ def to_model_call(idx, toks, res, pre, post, flags):
         a["ri_obs"] = post["c"][5]
 
     def bufargs(mode, initial):
-        a["bufmode"] = {"n": 0, "s": 1, "b": 1, "r": 2}[mode]
+        a["bufmode"] = {"n": 0, "s": 1, "b": 1, "r": 2, "A": 1, "a": 1}[mode]
+        if mode in ("A", "a"):
+            flags["dest_imprecise"] = True
         n = int(res.get("n", "0"))
         if mode == "r":
             flags["dest_imprecise"] = True
